@@ -8,7 +8,7 @@ func genC03(o *Out) {
 	fs := o.pinFile("isaac/suffrage.go", "NewSuffrage", "Suffrage.Exists", "Suffrage.ExistsPublickey", "NewSuffrageWithExpels")
 	fv := o.pinFile("isaac/voteproof_isvalid.go", "IsValidVoteproofWithSuffrage")
 	fb := o.pinFile("base/voteproof_isvalid.go", "IsValidVoteproof", "isValidVoteproofDuplicatedSignNode", "isValidVoteproofVoteResult",
-		"isValidVoteproofSignFacts", "IsValidVoteproofWithSuffrage")
+		"isValidVoteproofSignFacts", "IsValidVoteproofWithSuffrage", "isValidFactInVoteproof", "isValidSignFactInVoteproof")
 	fo := o.pinFile("isaac/suffrage_operation.go", "SuffrageExpelOperation.IsValid", "SuffrageExpelOperation.NodeSigns", "IsValidExpelWithSuffrage")
 	fp := o.pinFile("isaac/voteproof.go", "baseExpelVoteproof.isValid", "isValidithdrawVoteproof", "baseVoteproof.Result", "baseVoteproof.SetMajority")
 	fn := o.pinFile("base/base_operation.go", "BaseNodeOperation.IsValid")
@@ -57,4 +57,9 @@ func genC03(o *Out) {
 		o.pin(fp, "baseStuckVoteproof", "isValid")
 	}
 	o.boolean("stuckRejectsMajority", stuck)
+	pointCmp := false
+	if fd := fb.Func("", "isValidFactInVoteproof"); fd != nil {
+		pointCmp = strings.Contains(normSpace(fb.Src(fd.Body)), "if !vp.Point().Equal(fact.Point()) {")
+	}
+	o.boolean("factPointCompared", pointCmp)
 }
